@@ -79,16 +79,88 @@ Theorem C34_sticky_flag_means_tf : forall s, reachable s -> sticky s = true -> b
 Proof. exact sticky_means_tf. Qed.
 Print Assumptions C34_sticky_flag_means_tf.
 
-(* The bridge for clauses 1 (READY soundness) and 4 (sticky TF): they hold on every trace
-   of the model, for every op list.
-   PARTIAL: clauses 2 (C34_order: at most one in-pass Connect per operation, to the address
-   the pass has advanced to, strictly after the previous position) and 3
-   (C34_tf_after_all_failed: list exhausted and every active sub-channel in TF while a pass
-   runs => TF published in that operation) are evaluated on implementation traces on every
-   run but are NOT yet proved of the model; missing: an invariant relating
-   connectionFailedInFirstPass to the positions the pass has gone past. *)
+(* "Within a pass it requests connections in the order of the de-duplicated address list
+   interleaved by address family, at most one new attempt per address": in every reachable
+   state, whatever the next operation, if a pass is running after it and was running before it
+   or the operation is one that (re)starts passes (resolver update, ExitIdle in IDLE), then
+   before any TF publication the operation calls Connect at most once, on a sub-channel whose
+   address is the one the cursor of b.addressList (the pre-processed list of the theorems
+   above, which has no duplicates) points to, and - unless the pass was (re)started - the
+   cursor has moved strictly forward, so no address gets a second attempt. *)
+Theorem C34_order : forall s op, reachable s ->
+  firstPass (fst (step_main s op)) = true -> (firstPass s = true \/ is_start s op = true) ->
+  connects_before_tf (snd (step_main s op)) = [] \/
+  exists sc, connects_before_tf (snd (step_main s op)) = [zn sc] /\ (sc < nsc (fst (step_main s op)))%nat /\
+     d_addr (sds (fst (step_main s op)) sc) = cur_addr (fst (step_main s op)) /\
+     (is_start s op = true \/ (idx s < idx (fst (step_main s op)))%nat).
+Proof. exact order_readable. Qed.
+Print Assumptions C34_order.
+
+(* "at most one new attempt per address": b.addressList always holds a pre-processed list (no
+   duplicates), it changes only in resolver updates, and unless the operation (re)starts the
+   pass (resolver update, ExitIdle in IDLE: both put the cursor on the first address) the cursor
+   never moves back except when a sub-channel becomes READY (seekTo; the policy is then READY)
+   or an established connection is lost (reset; the policy is then IDLE).  With C34_order (every in-pass Connect is at the cursor, which has moved
+   strictly forward) no address of the list gets two attempts in one pass. *)
+Theorem C34_list_nodup : forall s, reachable s -> NoDup (addrs s).
+Proof. exact reachable_addrs_nodup. Qed.
+Print Assumptions C34_list_nodup.
+
+Theorem C34_cursor_monotone : forall s op, is_start s op = false ->
+  addrs (fst (step_main s op)) = addrs s /\
+  ((idx s <= idx (fst (step_main s op)))%nat \/
+   bstate (fst (step_main s op)) = READY \/ bstate (fst (step_main s op)) = IDLE).
+Proof. exact cursor_monotone. Qed.
+Print Assumptions C34_cursor_monotone.
+
+(* "after every address failed it reports TRANSIENT_FAILURE": (a) with the list exhausted and
+   every active sub-channel marked connectionFailedInFirstPass, endFirstPassIfPossibleLocked
+   ends the pass, publishes TF and leaves the policy in TF; (b) in ANY state and for ANY
+   operation a first pass ends only by publishing TF in that operation. *)
+Theorem C34_tf_after_all_failed : forall s,
+  al_valid s = false -> forallb (fun sc => d_failed (sds s sc)) (subs s) = true ->
+  firstPass (fst (end_first_pass s)) = false /\ tf_published (snd (end_first_pass s)) = true /\
+  bstate (fst (end_first_pass s)) = TF.
+Proof. exact efp_spec. Qed.
+Print Assumptions C34_tf_after_all_failed.
+
+Theorem C34_pass_ends_only_with_tf : forall s op,
+  firstPass s = true -> firstPass (fst (step_main s op)) = false ->
+  exists pk, In (TF, pk) (u_events (snd (step_main s op))).
+Proof. exact pass_ends_with_tf. Qed.
+Print Assumptions C34_pass_ends_only_with_tf.
+
+(* The defect repaired by 5362b94 (ExitIdle restarted the pass without resetting the cursor:
+   if the cursor had moved while IDLE was published, the sub-channels before it lost their
+   failure mark and were never visited, the pass never ended, no TF, no Connect ever again):
+   on the repaired machine the witness history - update [a; b]; sc0 CONNECTING, IDLE; sc0 TF
+   (cursor -> 1); ExitIdle; sc1 TF - restarts at the first address (cursor 1 = sc1 after
+   skipping sc0, which is in TF and marked again), ends the pass with TF published, and
+   re-connects sub-channels that report IDLE afterwards. *)
+Theorem C34_exit_idle_restart_witness :
+  let s := fst (run_from init midstart_prefix) in
+  let s' := fst (step_main s [2; 1; 3]) in
+  idx s = 1%nat /\ midstart s = false /\ firstPass s = true /\
+  snd (step_main s [2; 1; 3]) = [[1; 3; -1]] /\ firstPass s' = false /\ bstate s' = TF /\ all_failed s' = true /\
+  snd (step_main s' [2; 0; 0]) = [[3; 0]] /\ snd (step_main s' [2; 1; 0]) = [[3; 1]].
+Proof. exact exit_idle_restart_witness. Qed.
+Print Assumptions C34_exit_idle_restart_witness.
+
+(* The bridge: clauses 1 (READY soundness), 2 (order), 3 (a pass ends only by publishing TF)
+   and 4 (sticky TF) hold on every trace of the model, for every op list.
+   PARTIAL: not covered is clause 5: "a running pass is never left with the list exhausted and
+   every active sub-channel's latest state TF without publishing TF", i.e. the invariant
+     forall s, reachable s -> firstPass s = true -> all_failed s = false.
+   It is evaluated on every implementation trace (it is the clause that reports the defect
+   repaired by 5362b94) and held on 800000 random histories of the model (extracted OCaml; the
+   only counterexamples were of the repaired class), but it is not proved; the proof needs
+   the joint invariant: active sub-channels have distinct addresses that lie in the list; a
+   sub-channel whose latest state is READY is the only one, the cursor is on it and no timer
+   runs; a running timer implies the cursor's sub-channel is not in TF; a sub-channel in TF
+   without failure mark lies at or after the cursor; the list is exhausted only with an
+   unmarked sub-channel left; every pass starts with the cursor on the first address. *)
 Theorem C34_holds_on_every_model_trace_partial : forall ops,
-  exists obs, run ops = Some obs /\ holds_1_4 ops obs = true.
+  exists obs, run ops = Some obs /\ holds_proved ops obs = true.
 Proof. exact model_trace_holds. Qed.
 Print Assumptions C34_holds_on_every_model_trace_partial.
 
